@@ -260,6 +260,14 @@ def r2_single_writer(rep, src):
         rep.fail('C19.R2', d.site, 'full download replaces through replace_file', 'download_file does not write the downloaded lines through replace_file', where=d.where)
 
 
+def _folds_to_str(mod, e):
+    try:
+        v = mod.fold(e, '')
+    except Exception:      # pylint: disable=broad-except
+        return False
+    return isinstance(v, str) and v != ''
+
+
 def r3_replace_protocol(rep, src):
     f = src.func(MODN + ':replace_file')
     rep.saw_func(f)
@@ -267,7 +275,7 @@ def r3_replace_protocol(rep, src):
     tmp = None
     for st in f.node.body:
         if isinstance(st, ast.Assign) and isinstance(st.targets[0], ast.Name) and isinstance(st.value, ast.BinOp) \
-                and isinstance(st.value.op, ast.Add) and norm(st.value.left) == local and isinstance(st.value.right, ast.Constant):
+                and isinstance(st.value.op, ast.Add) and norm(st.value.left) == local and _folds_to_str(f.module, st.value.right):
             tmp = st.targets[0].id
     if tmp is None:
         raise AnalysisError('%s: no temporary name derived from the target path' % f.site)
